@@ -260,6 +260,7 @@ CFG_VALUE_SOUP = [".nan", ".inf", "-.inf", "0", "-1", "1", "7", "8", "1.5", "200
 CFG_VALUE_TEXT = ("# Title\n\ntext *em* [l](u.md) <https://e.org> `c` $m$ {{ k }} {sub}`r` ~~s~~ \"q\" (c) word[^f]\n\n[^f]: note\n\n## Sub\n\n- [ ] task\n\n```python\ncode\n```\n\n```{note}\nn\n```\n\n:::{tip}\nt\n:::\n\n"
                   "| a |\n|---|\n| b |\n\nterm\n: def\n\n:field: v\n\n$$\nx\n$$ (lbl)\n\n\\begin{equation}\ny\n\\end{equation}\n\n<div class=\"admonition\">x</div>\n\n<img src=\"i.png\">\n\n[](#sub) [](inv:k#x) <wiki:P>\n\n{a=b}\npara\n")
 
+OPTION_VALUES = ["", "x", "0", "-1", "1.5", "10px", "50%", "200%", "a b", "left", "image", "auto", "nosuch-encoding", "1 2 3", "\"q\"", "'", "\\", "é", "99999999999999999999", "#", "U+110000", "x" * 300]
 ISOLATION = [
     ["```{note}", "before {mvboom}`x` after", "```"], ["> ```{note}", "> {mvboom}`x`", "> ```"], ["````{tip}", "```{note}", "{mvboom}`x`", "```", "````"], ["```{mvboomdir}", "body", "```"],
     ["````{mvboomafter}", "## heading inside", "", "```{note}", "x", "```", "````"], ["```{include} boominc.md", "```"], ["- item", "", "  ```{note}", "  {mvboom}`x`", "  ```"], [":::{note}", "{mvboom}`x`", ":::"],
@@ -562,6 +563,34 @@ def run_shard(ctx):
             ctx.case(("cfg-value-global", fn, ytxt), True)
             ctx.count("cfg_field_value_pairs")
     ctx.subrun("config_field_value_matrix", exhaustive=True, fields=len(fields), values=len(CFG_VALUE_SOUP))
+    # every docutils directive x every one of its options x awkward values, end to end: whatever the option converter returns or raises, and whatever
+    # the directive's run() then does with it, the document comes back (C08 judges the split itself; here the whole pipeline runs)
+    import importlib
+
+    from docutils.parsers.rst import directives as _D
+
+    k = 0
+    for dname, (modname, clsname) in sorted(_D._directive_registry.items()):
+        try:
+            dcls = getattr(importlib.import_module("docutils.parsers.rst.directives." + modname), clsname)
+        except Exception:  # noqa: BLE001
+            continue
+        if dname in ("restructuredtext-test-directive",):
+            continue
+        arg = {"image": "i.png", "figure": "i.png", "include": "ok.md", "raw": "html", "code": "python", "sourcecode": "python", "code-block": "python", "role": "mvr(emphasis)", "unicode": "U+2014", "date": "%Y", "replace": "x", "class": "c",
+               "default-role": "emphasis", "title": "T", "meta": "", "csv-table": "T", "table": "T", "list-table": "T"}.get(dname, "Title" if (dcls.required_arguments or dcls.optional_arguments) else "")
+        body = {"list-table": "* - a\n  - b", "csv-table": "a,b", "table": "| a |\n|---|", "math": "x", "meta": ":k: v"}.get(dname, "body text" if dcls.has_content else "")
+        for oname in sorted(x for x in (dcls.option_spec or {}) if isinstance(x, str)):
+            for v in OPTION_VALUES:
+                k += 1
+                if k % ctx.nshards != ctx.shard:
+                    continue
+                text = f"before\n\n```{{{dname}}} {arg}\n:{oname}: {v}\n\n{body}\n```\n\nafter OPTEND\n"
+                case = {"kind": "doc", "sub": "directive-option-value", "text": text, "cfg": {}, "alarm_s": 10}
+                eval_case(ctx, case)
+                ctx.case(("directive-option-value", dname, oname, v), True)
+                ctx.count("directive_option_value_documents")
+    ctx.subrun("every_docutils_directive_option_value", exhaustive=True, values=len(OPTION_VALUES))
     for k in range(len(ISOLATION)):
         if k % ctx.nshards == ctx.shard % len(ISOLATION) or ctx.nshards <= k:
             case = {"kind": "doc", "sub": "isolation", "shape": k, "text": ""}
